@@ -336,9 +336,9 @@ fn e1_main(a: &Args) -> i32 {
                 r.strategy = sched::Strategy::Sequential(vec![0]);
                 r.ambient = ambient::Ambient::default();
                 (r, vv, n)
-            } else if shrunk < max_shrunk && rep.crashed.is_none() {
+            } else if shrunk < max_shrunk && rep.crashed.is_none() && started.elapsed().as_secs_f64() < seconds + 45.0 {
                 shrunk += 1;
-                let mut sh = shrink::Shrinker { oracle: &mut oracle, budget: 400, executions: 0 };
+                let mut sh = shrink::Shrinker { oracle: &mut oracle, budget: 400, executions: 0, deadline: Instant::now() + std::time::Duration::from_secs(20) };
                 let (r, vv) = sh.shrink(base, &rep.choices, &v);
                 (r, vv, sh.executions)
             } else {
